@@ -134,6 +134,28 @@ fn strat() -> impl Strategy<Value = KmerCase> {
     })
 }
 
+
+/// libFuzzer leg: [k][symbols...]
+pub fn from_fuzz(data: &[u8]) -> KmerCase {
+    use crate::fuzzing::Cur;
+    let mut c = Cur::new(data);
+    let k = 1 + c.u8() % 32;
+    let seq: Vec<u8> = c.rest().iter().map(|&b| if b < 244 { b & 3 } else { 4 + (b - 244) }).collect();
+    KmerCase { k, seq }
+}
+
+pub fn fuzz_seeds() -> Vec<Vec<u8>> {
+    let mut r = crate::util::SplitMix::new(0xC20);
+    let mut out = Vec::new();
+    for k in [31u8, 0, 2, 20] {
+        let mut v = vec![k];
+        v.extend((0..90).map(|_| (r.next() & 0x7f) as u8));
+        out.push(v);
+    }
+    out.push(vec![3, 0, 3, 0, 3, 0, 3, 250, 1, 2, 1, 2]);
+    out
+}
+
 /// all sequences of length 0..=max_len over `alphabet`, for a given k
 fn all_seqs(k: u8, alphabet: &'static [u8], max_len: usize) -> impl Iterator<Item = KmerCase> {
     let a = alphabet.len();
@@ -174,6 +196,9 @@ pub fn run(ctx: &Ctx, stats: &mut Stats) {
     }
     let n = ctx.tier.pick(3_000_000, 40_000_000);
     run_prop(ctx, stats, "random", n, strat(), &check);
+    if ctx.tier == Tier::Thorough || std::env::var("VERIF_FUZZ").is_ok() {
+        crate::fuzzing::run_stage(ctx, stats, "kmer", ctx.tier.pick(400_000, 8_000_000));
+    }
 }
 
 pub fn replay(_ctx: &Ctx, _stage: &str, case: &Value) -> Report {
